@@ -145,3 +145,47 @@ Lemma switches_example : switches_statement.
 Proof.
   split; [vm_compute; reflexivity|]. unfold switch_attempts0. repeat constructor; cbn; discriminate.
 Qed.
+
+(* ---------- C11 over histories: nobody else can touch a farm ---------- *)
+From MD.Proofs Require Import FarmCustodyChain FarmsSafe.
+
+Definition farm_pre0 : list op := firstn 10 ops0.       (* ... up to carol's creation of farm "m-f" (4000 uusdc, epochs 1-5) *)
+Definition farm_others0 : list op :=
+  [ Tx "bob" "FM" (WFm (FmExpandFarm {| fp_lp := lp0; fp_start := None; fp_end := None; fp_asset := ("uusdc", 1000); fp_id := Some "m-f" |})) [("uusdc", 1000)];
+    Tx "bob" "FM" (WFm (FmCloseFarm "m-f")) [];
+    Tx "bob" "FM" (WFm (FmCreateFarm {| fp_lp := lp0; fp_start := Some 1; fp_end := Some 5; fp_asset := ("uusdc", 4000); fp_id := Some "f" |})) [("uom", 1000); ("uusdc", 4000)];
+    Tx "bob" "FM" (WFm (FmCreateFarm {| fp_lp := lp0; fp_start := Some 1; fp_end := Some 5; fp_asset := ("uusdc", 4000); fp_id := Some "g" |})) [("uom", 1000); ("uusdc", 4000)];
+    SetBlock (day 1); SetBlock (day 2);
+    Tx "alice" "FM" (WFm (FmClaim None)) [] ].
+
+Definition farms_check : bool :=
+  match genesis_world g0 with
+  | Err _ => false
+  | Ok w0 =>
+      let w1 := run w0 farm_pre0 in
+      let w2 := run w1 farm_others0 in
+      match sfind f_id "m-f" (fm_farms (w_fm w1)), sfind f_id "m-f" (fm_farms (w_fm w2)) with
+      | Some f, Some f' =>
+          (String.eqb (f_owner f) "carol" && String.eqb (f_owner f') "carol" &&
+           (amount_of (f_asset f) =? 4000) && (amount_of (f_asset f') =? 4000) && (f_end f' =? f_end f) &&
+           (f_claimed f =? 0) && (0 <? f_claimed f') &&
+           (* bob's own farm "m-g" got through: the history is not just rejections *)
+           match sfind f_id "m-g" (fm_farms (w_fm w2)) with Some g => String.eqb (f_owner g) "bob" | None => false end)%bool
+      | _, _ => false
+      end
+  end.
+
+Definition farms_statement : Prop :=
+  farms_check = true /\ 0 <= amount_of (fm_create_fee (g_fm g0)) /\
+  Forall op_ok farm_pre0 /\ Forall (not_signed_by "carol") farm_others0 /\
+  "carol" <> EM /\ "carol" <> FC /\ "carol" <> PM /\ "carol" <> FM.
+
+Lemma farms_example : farms_statement.
+Proof.
+  unfold farms_statement.
+  split; [vm_compute; reflexivity|].
+  split; [vm_compute; discriminate|].
+  split. { vm_compute. repeat constructor; discriminate. }
+  split. { unfold farm_others0. repeat constructor; cbn; discriminate. }
+  repeat split; discriminate.
+Qed.
